@@ -170,7 +170,7 @@ def run(tier, seed, replay):
     model_blocks = simlib.run_model([("#" + l) if l.startswith("inject") else l for l in annotated])
     # model prints nothing for comment lines: re-align by dropping inject steps from the implementation side
     keep = [i for i, l in enumerate(all_lines) if not l.startswith("inject")]
-    oracle_fail, diverged = [], []
+    oracle_fail, diverged, lost_valid = [], [], []
     # decode verdicts of the byte-level Coq models
     inj = [(i, l.split()) for i, l in enumerate(all_lines) if l.startswith("inject")]
     proto_at = {}
@@ -264,10 +264,15 @@ def run(tier, seed, replay):
                         if cand:
                             gotset.remove(cand[0])
                         elif blk and not any(x.startswith("PANIC") for x in blk) and "running" not in l:
-                            diverged.append(dict(step_index=i, step=l, why="server logic did not observe an injected message the Coq byte-level model decodes", expected=it, observed=got))
+                            # a well-formed message (the byte-level Coq model decodes it) that was handed to the server in this frame
+                            # never reached server logic: messages after a malformed one must still be served
+                            lost_valid.append(dict(problem=dict(step_index=i, step=l, why="a well-formed client message delivered in this frame never reached server logic "
+                                                                "(expected %s, observed %r): the server stopped serving after a malformed message" % (it, got)),
+                                                   script=[x for x in all_lines[max(0, i - 80):i + 1]]))
             pending = []
             if len(got) >= 3:
                 nontriv.add(i)
+    oracle_fail += lost_valid[:1]
     # isolation: compare non-attacker observations of implementation and model
     mi = 0
     for i in keep:
